@@ -170,12 +170,12 @@ func main() {
 	r := vx.Start("C01")
 	genrun.MaybeServe()
 	// frontier by parents only: several minimal witnesses of one kind are all reported
-	schemas := gschema.Enumerate(r.Thorough())
+	schemas := allSchemas(r.Thorough())
 	if r.Replay != "" {
 		_, witness, _ := r.ReplayFile()
 		want := witness[strings.Index(witness, " :: ")+4:]
 		var pick []gschema.Schema
-		for _, s := range gschema.Enumerate(true) {
+		for _, s := range allSchemas(true) {
 			if s.String() == want {
 				pick = append(pick, s)
 			}
